@@ -156,6 +156,8 @@ impl CoreInner {
 		// database
 		let mut lockfile = LockFile::new(&opts.path);
 		lockfile.acquire()?;
+		#[cfg(feature = "verif")]
+		crate::verif::point("open.after_lock");
 
 		// Initialize immutable memtables
 		let immutable_memtables = Arc::new(RwLock::new(ImmutableMemtables::default()));
@@ -291,6 +293,8 @@ impl CoreInner {
 			})?;
 
 		log::debug!("Created SST table_id={}, file_size={}", table.id, table.file_size);
+		#[cfg(feature = "verif")]
+		crate::verif::point("flush.after_sst");
 
 		// Step 2: Write to versioned index (B+tree) with vlog-separated values
 		// Note: Replace entries are NOT cleaned up here. The HistoryIterator uses
@@ -312,6 +316,8 @@ impl CoreInner {
 			);
 		}
 
+		#[cfg(feature = "verif")]
+		crate::verif::point("flush.after_index");
 		// Step 3: Prepare atomic changeset
 		let mut changeset = ManifestChangeSet::default();
 		changeset.new_tables.push((0, Arc::clone(&table)));
@@ -372,6 +378,8 @@ impl CoreInner {
 	///
 	/// The actual SST flush happens asynchronously via background task.
 	pub(crate) fn rotate_memtable(&self) -> Result<()> {
+		#[cfg(feature = "verif")]
+		crate::verif::point("rotate.before");
 		// Step 1: Acquire WRITE lock upfront to prevent race conditions
 		let mut active_memtable = self.active_memtable.write()?;
 
@@ -479,6 +487,8 @@ impl CoreInner {
 			entry.wal_number,
 		)?;
 
+		#[cfg(feature = "verif")]
+		crate::verif::point("flush.before_wal_cleanup");
 		// Schedule async WAL cleanup
 		let wal_dir = self.wal.read().get_dir_path().to_path_buf();
 		let min_wal_to_keep = entry.wal_number + 1;
@@ -960,6 +970,8 @@ impl CommitEnv for LsmCommitEnv {
 			Err(Error::ArenaFull) => {
 				// Arena is full - rotate memtable and retry
 				log::debug!("apply: arena full, rotating memtable");
+				#[cfg(feature = "verif")]
+				crate::verif::point("apply.arena_full");
 
 				self.core.rotate_memtable()?;
 
@@ -1414,6 +1426,8 @@ impl Core {
 		})?;
 		log::debug!("Directory sync complete");
 
+		#[cfg(feature = "verif")]
+		crate::verif::point("close.before_unlock");
 		// Step 7: Release the database lock
 		let mut lockfile = self.inner.lockfile.lock()?;
 		lockfile.release()?;
